@@ -152,11 +152,11 @@ def scanDecimal (cs : List Char) : Option (List Char × List Char) :=
 
 def scanNumber (cs : List Char) : Option (List Char × List Char) :=
   match cs with
-  | '0' :: x :: r =>
-    if x == 'x' || x == 'X' then radixLit ['0', x] isHexDigit r
-    else if x == 'o' || x == 'O' then radixLit ['0', x] isOctDigit r
-    else if x == 'b' || x == 'B' then radixLit ['0', x] isBinDigit r
-    else if x.isDigit then
+  | c :: x :: r =>
+    if c == '0' && (x == 'x' || x == 'X') then radixLit ['0', x] isHexDigit r
+    else if c == '0' && (x == 'o' || x == 'O') then radixLit ['0', x] isOctDigit r
+    else if c == '0' && (x == 'b' || x == 'B') then radixLit ['0', x] isBinDigit r
+    else if c == '0' && x.isDigit then
       -- LegacyOctalIntegerLiteral / NonOctalDecimalIntegerLiteral (Annex B.1.1), no separators
       let ds := (x :: r).takeWhile Char.isDigit
       if ds.all isOctDigit then
